@@ -3,6 +3,8 @@ import FrappyProofs.Lemmas.MatchAcc
 import FrappyProofs.Lemmas.Timed
 import FrappyProofs.Lemmas.Shutdown
 import FrappyProofs.Lemmas.Conn
+import FrappyProofs.Lemmas.ReconnectInv
+import FrappyProofs.Lemmas.ReconnectQuiet
 import FrappyModel.Generated.C11
 /-
 C11 — property theorems (nothing but property theorems and their non-vacuity examples).
@@ -388,6 +390,171 @@ example : (match Frappy.Client.Conn.run {} [.peerRst, .call .readline .closed, .
       | .ok _ => false) = true
     ∧ connFirstBad {} [.peerRst, .call .readline .closed, .call .shutdown (.otherErr "OSError")] 0 = some 2 := by
   decide
+
+end
+
+/-! ## the life cycle across connections: connect(), reconnect threads, disconnect() -/
+
+section
+open Frappy.Client.Reconnect
+
+/-- The full statement for the shutdown clauses on the life-cycle model: while the shutdown request of a user's
+`disconnect()` that has returned stands, the client is not connected, nobody is about to connect, and no worker thread is
+left in its loop. -/
+def shutdown_final_statement (cfg : Cfg) : Prop :=
+  ∀ s : St, Reachable cfg s → StaysShutDown s ∧ WorkersRunOut cfg s
+
+/-- Proved part (repaired client: `disconnect(True)` waits for every registered reconnect thread): in every reachable
+state — any number of user threads calling `disconnect()` and `request()`, any number of connections made, refused and
+lost, any number of reconnect threads, any interleaving — while the shutdown request of a returned user `disconnect()`
+stands, `self.io` is `None` and no thread is past the test of the flag inside `connect()`: no connection exists and none
+can come into being until a user asks for one.
+Missing for the full statement: `WorkersRunOut` and the termination of `disconnect()` itself — liveness properties of the
+threads that are still on their way out (`marker_eaten_hangs` shows what they rule out); the invariant one would like
+instead, "no worker in its loop once the `disconnect()` has returned", is false (`no_worker_in_loop_fails`). -/
+theorem shutdown_final_partial (cfg : Cfg) (hj : cfg.joinAll = true) (s : St) (h : Reachable cfg s) :
+    StaysShutDown s := by
+  intro u U hU _ hpc hs
+  have inv := reachable_inv hj h
+  refine ⟨(inv.io u U hU hs).2 (by simp [hpc, isP2]), fun i t ht => ?_⟩
+  cases hw : inWindow t
+  · rfl
+  · have := covered_isJ (inv.win u U i t hU hs ht hw).2
+    simp [hpc, isJ] at this
+
+/-- Why the worker clause is about what happens *after* the return: connection 0 is lost, a request (thread 3) connects
+anew and has assigned `self.io` when a user calls `disconnect()` (thread 4), which finds no worker registered, clears
+`self.io` and returns — its request stands; the request's `connect()` then registers and releases its workers. -/
+theorem no_worker_in_loop_fails : ∃ s : St, Reachable {} s ∧ StaysShutDown s ∧ ¬ NoWorkerInLoop s := by
+  have hc : (exec {} {} [.act (.drop 0), .act (.th 1 1), .to 1 .d5, .to 0 .done, .to 1 .done, .act .newReq, .to 3 .c8,
+        .act .newDisc, .to 4 .s4, .to 2 .done, .to 4 .done, .to 3 .c12]).map (fun s =>
+      (s.th[4]?.map (fun U => U.kind == .userDisc && U.pc == .done && standing s U)) == some true
+        && (s.th[5]?.map inLoop) == some true) = some true := by decide +kernel
+  cases he : exec {} {} [.act (.drop 0), .act (.th 1 1), .to 1 .d5, .to 0 .done, .to 1 .done, .act .newReq, .to 3 .c8,
+        .act .newDisc, .to 4 .s4, .to 2 .done, .to 4 .done, .to 3 .c12] with
+  | none => rw [he] at hc; cases hc
+  | some s =>
+    rw [he] at hc
+    have hr := exec_reachable Reachable.init he
+    refine ⟨s, hr, shutdown_final_partial {} rfl s hr, fun hn => ?_⟩
+    simp only [Option.map_some, Option.some.injEq, Bool.and_eq_true, beq_iff_eq] at hc
+    cases hU : s.th[4]? with
+    | none => rw [hU] at hc; simp at hc
+    | some U =>
+      cases hT : s.th[5]? with
+      | none => rw [hT] at hc; simp at hc
+      | some T =>
+        rw [hU, hT] at hc
+        simp only [Option.map_some, Option.some.injEq, Bool.and_eq_true, beq_iff_eq] at hc
+        have := hn 4 U hU hc.1.1.1 hc.1.1.2 hc.1.2 5 T hT
+        rw [this] at hc
+        simp at hc
+
+/-- The reconnect threads never revoke a shutdown request (any configuration, any reachable state). -/
+theorem reconnect_never_revokes (cfg : Cfg) (hj : cfg.joinAll = true) (s : St) (h : Reachable cfg s) :
+    ReconnectKeepsFlag s := by
+  intro i t ht hk hpc
+  have := ((reachable_inv hj h).reg i t ht hk).2 (by simp [hpc, regPc, cPc])
+  simpa using this
+
+/-- The client before `9008084` (`joinAll := false`: `disconnect(True)` cancels and joins the latest reconnect thread
+only).  Connection 0 breaks: reconnect thread 2.  A request connects anew (connection 1), that breaks too: reconnect
+thread 6, now `_connthread`.  Thread 2 enters `connect()` and passes the test of the flag.  A user calls `disconnect()`:
+it sets the flag, cancels and joins thread 6 and returns — its request stands.  Thread 2 then establishes connection 2. -/
+def cfgLatestOnly : Cfg := { joinAll := false }
+
+def traceOlderReconnect : List Cmd := [
+  .act (.drop 0), .act (.th 1 1), .to 1 .d5, .to 0 .done, .to 1 .done,
+  .act .newReq, .to 3 .done,
+  .act (.drop 1), .to 4 .rread, .act (.th 4 1), .to 4 .d5, .to 5 .done, .to 4 .done,
+  .to 2 .c6,
+  .act .newDisc, .to 7 .s4, .to 6 .done, .to 7 .done,
+  .to 2 .done ]
+
+theorem older_reconnect_connects_after_shutdown :
+    ∃ s : St, Reachable cfgLatestOnly s ∧ ¬ StaysShutDown s := by
+  have hc : (exec cfgLatestOnly {} traceOlderReconnect).map (fun s =>
+      (s.th[7]?.map (fun U => U.kind == .userDisc && U.pc == .done && standing s U)) == some true && s.io == some 2)
+      = some true := by decide +kernel
+  cases he : exec cfgLatestOnly {} traceOlderReconnect with
+  | none => rw [he] at hc; cases hc
+  | some s =>
+    rw [he] at hc
+    refine ⟨s, exec_reachable Reachable.init he, fun hst => ?_⟩
+    simp only [Option.map_some, Option.some.injEq, Bool.and_eq_true, beq_iff_eq] at hc
+    cases hU : s.th[7]? with
+    | none => rw [hU] at hc; simp at hc
+    | some U =>
+      rw [hU] at hc
+      simp only [Option.map_some, Option.some.injEq, Bool.and_eq_true, beq_iff_eq] at hc
+      have := (hst 7 U hU hc.1.1.1 hc.1.1.2 hc.1.2).1
+      rw [this] at hc
+      simp at hc
+
+/-- the repaired client in the same situation: the user's `disconnect()` also waits for thread 2, which connects
+(connection 2, workers 8 and 9); the `disconnect()` then tears that connection down; in the end nothing is left -/
+example : (exec {} {} (traceOlderReconnect.take 15 ++
+      [.to 7 .s4, .to 6 .done, .to 7 .s8, .to 2 .done, .to 7 .d5, .to 9 .d8, .to 8 .done, .to 9 .done,
+       .to 7 .done])).map
+    (fun s => s.io == none && workersAlive s == [] && (s.th[7]?.map (fun U => U.pc == .done && standing s U)) == some true)
+    = some true := by
+  decide +kernel
+
+/-- The client before `a051020` (`keepMarker := false`: the final drain of `disconnect()` swallows a shutdown marker).
+A send fails: the tx thread 0 runs `disconnect(False)` and waits for the rx thread.  A user (thread 3) calls
+`disconnect()` and gets as far as shutting down connection 0.  The rx thread ends and clears `self.io`.  The tx thread
+goes on to just before its final drain.  A request (thread 4) connects anew: queue 1, connection 1, rx 5, tx 6; tx 6
+serves the two requests and blocks in `txq.get()`.  The user's `disconnect()` reads `_txthread` = 6, puts its marker into
+queue 1 and waits for thread 6.  The old tx thread's final drain takes queue 1 and swallows the marker. -/
+def cfgSwallow : Cfg := { keepMarker := false, activate := false }
+
+def traceMarkerEaten : List Cmd := [
+  .act .newReq, .to 2 .done, .to 0 .tsend, .act (.th 0 1), .to 0 .d8,
+  .act .newDisc, .to 3 .d3,
+  .act (.th 1 1), .to 1 .done,
+  .to 0 .d10p,
+  .act .newReq, .to 4 .done,
+  .to 6 .tproc, .to 6 .tget, .to 6 .tproc, .to 6 .tget, .to 5 .rread,
+  .to 3 .d5,
+  .to 0 .done ]
+
+/-- … the user's `disconnect()` (thread 3) hangs: it waits in `txthread.join()` for a tx thread that sits on an empty queue
+of a healthy connection, all other threads have finished except the rx thread, which polls — and whatever the threads do
+from there on (any number of their own steps in any order, heartbeats included, without a fault of the environment), the
+`disconnect()` is still waiting. -/
+theorem marker_eaten_hangs :
+    ∃ s : St, Reachable cfgSwallow s ∧ txJoinHangs s = true
+      ∧ (∃ U, s.th[3]? = some U ∧ U.kind = .userDisc ∧ U.pc = .d5)
+      ∧ ∀ (acts : List Act) (s' : St), (∀ a ∈ acts, internal a) → run cfgSwallow s acts = some s' →
+          ∃ U', s'.th[3]? = some U' ∧ U'.pc = .d5 := by
+  have hc : (exec cfgSwallow {} traceMarkerEaten).map (fun s => txJoinHangs s && quietB s
+      && (s.th[3]?.map (fun U => U.kind == .userDisc && U.pc == .d5)) == some true) = some true := by decide +kernel
+  cases he : exec cfgSwallow {} traceMarkerEaten with
+  | none => rw [he] at hc; cases hc
+  | some s =>
+    rw [he] at hc
+    simp only [Option.map_some, Option.some.injEq, Bool.and_eq_true, beq_iff_eq] at hc
+    obtain ⟨⟨h1, h2⟩, h3⟩ := hc
+    cases hU : s.th[3]? with
+    | none => rw [hU] at h3; simp at h3
+    | some U =>
+      rw [hU] at h3
+      simp only [Option.map_some, Option.some.injEq, Bool.and_eq_true, beq_iff_eq] at h3
+      refine ⟨s, exec_reachable Reachable.init he, h1, ⟨U, hU, h3.1, h3.2⟩, fun acts s' hi hr => ?_⟩
+      exact (quiet_forever (quiet_of_quietB h2) hi hr).2 3 U hU h3.2
+
+/-- the repaired client, same schedule: the drain puts the marker back, the new tx thread ends, everything terminates -/
+example : (exec { activate := false } {} traceMarkerEaten).map
+    (fun s => !txJoinHangs s && (let s' := runGreedy { activate := false } 300 s
+                                 s'.th.all (fun t => t.pc == .done) && s'.io == none)) = some true := by
+  decide +kernel
+
+/-- non-vacuity of `shutdown_final_partial` / `reconnect_never_revokes`: in the run above of the repaired client the
+user's request stands at the end, and a reconnect thread passes `c2` while registered -/
+example : (exec {} {} [.act (.drop 0), .act (.th 1 1), .to 1 .d5, .to 0 .done, .to 1 .done, .to 2 .c2]).map
+    (fun s => (s.th[2]?.map (fun t => t.kind == .recon && t.pc == .c2)) == some true && s.registered.contains 2)
+    = some true := by
+  decide +kernel
 
 end
 
